@@ -715,6 +715,11 @@ def run(res, tier):
     leaf_centre(facts, res, cobj, geo)
     res.rule("C05.7 transfer terms: every term an M2L handler overload adds to the transformed local expansion depends (through its locals) on the parameter it derives from the level of the call - the scale in the homogeneous handler, the level selecting the table in the non-homogeneous one - and on the transfer code")
     res.floor("C05.7", transfer_terms(facts, res), 2, "accumulations in the M2L handlers")
+    res.rule("C05.9 full-order loops: every loop of the kernel's operators, of the interpolator's apply* functions and of the M2L handler's applyFC runs over a range fixed by template constants / members fixed at construction and enclosing loop variables, or over the items handed over - never over a bound computed from the data of the call (rule of C04.10)")
+    n9 = 0
+    for k_ in (K, "FUnifInterpolator", "FUnifM2LHandler"):
+        n9 += full_order_loops(facts, res, k_, "C05.9.full-order-loops", ops=("P2M", "M2M", "M2L", "L2L", "L2P", "applyP2M", "applyL2P", "applyL2PGradient", "applyM2M", "applyL2L", "applyFC"))
+    res.floor("C05.9", n9, 30, "loops in the uniform kernel's operators and apply functions")
     res.rule("C05.8 table extents: the interpolator's per-level table is allocated, filled and read (at the default level the operators use) consistently for every tree height >= 1 - extent and fill range as closed forms in the height, evaluated for heights 1..8")
     res.floor("C05.8", table_extents(facts, res), 2, "default-level reads of the interpolator table")
     res.rule("C05.6 level-uniform operators: the level argument of M2M / M2L / L2L reaches width and scale arithmetic only (no branch, loop bound or selection depends on it); the kernel names no executor boundary level")
@@ -1012,4 +1017,66 @@ def table_extents(facts, res, cls="FUnifInterpolator", R="C05.8.table-extent"):
                     elif bad_fill:
                         res.violation(R, tbf.rel(facts.path_of(y)), g["qname"], "unfilled:%s@%s" % (tname, g["name"]), y["l"][1],
                                       "%s reads `%s[%d]` but the constructor fills the levels [%s, %s) only: for tree heights %s the entry read is a null pointer" % (g["name"], tname, c0, lo, " or ".join(str(h_) for h_ in his), bad_fill))
+    return n
+
+
+def full_order_loops(facts, res, kcls, R, ops=("P2M", "M2M", "M2L", "L2L", "L2P")):
+    """The truncation order is a compile-time parameter of the kernel: every loop of an operator (and of the same-class helpers it calls
+    with compile-time bounds) runs over a range fixed by template constants and enclosing loop variables, or over the items it was handed
+    (bound = a count parameter).  A bound computed from the data of the call (a radius, a magnitude, a level) makes the number of terms
+    summed depend on the input: the error no longer follows the order."""
+    n = 0
+    for op in ops:
+        for m in [m_ for m_ in facts.methods_of(kcls) if m_["name"] == op and tbf.body(m_) is not None and not m_.get("inst")]:
+            body = tbf.body(m)
+            tbf.link_parents(body)
+            decls = {v["did"]: v for v in walk(body) if v.get("k") == "VarDecl"}
+            params = {p_["did"]: p_ for p_ in m["params"]}
+            loopvars = set()
+            for f in walk(body):
+                if f.get("k") == "ForStmt" and f["c"][0] is not None:
+                    for v in kids(f["c"][0]):
+                        if v.get("k") == "VarDecl":
+                            loopvars.add(v["did"])
+
+            def runtime(e, depth=0):
+                """the first run-time ingredient of a bound, or None"""
+                for z in walk(e):
+                    k = z.get("k")
+                    if k in ("CallExpr", "CXXMemberCallExpr"):
+                        nm = tbf.callee_name(z) or ""
+                        if nm in ("atLm", "min", "max", "size", "lipow") or nm.startswith("get") and not tbf.call_args(z) and False:
+                            continue
+                        if nm in ("atLm", "min", "max", "lipow", "abs"):
+                            continue
+                        return "the call %s(...)" % nm
+                    if k == "DeclRefExpr" and z.get("dk") in ("Var", "ParmVar"):
+                        did = z.get("did")
+                        if did in loopvars or (z.get("staticmember") and (z.get("t") or "").startswith("const ")):
+                            continue
+                        if did in params:
+                            if re.search(r"(?i)^in(Nb|Size)|nb[A-Z]", params[did].get("name") or ""):
+                                continue      # the number of items handed to the operator
+                            return "the parameter %s" % params[did].get("name")
+                        d = decls.get(did)
+                        if d is not None and (d.get("constexpr") or (kids(d) and "const" in d.get("t", "") and depth < 3 and runtime(kids(d)[0], depth + 1) is None)):
+                            continue
+                        return "the local %s" % z.get("name")
+                    if k in ("MemberExpr", "CXXDependentScopeMemberExpr") and not (z.get("t") or "").startswith("const "):
+                        fl = [f_ for c_ in facts.classes if c_["name"] == kcls for f_ in c_.get("fields", []) if f_["name"] == z.get("name")]
+                        if fl and fl[0].get("t", "").startswith("const "):
+                            continue
+                        if z.get("name") in ("size",):
+                            continue
+                        return "the member %s" % z.get("name")
+                return None
+            for f in walk(body):
+                if f.get("k") != "ForStmt" or f["c"][1] is None:
+                    continue
+                n += 1
+                why = runtime(f["c"][1])
+                if why is not None:
+                    res.violation(R, tbf.rel(facts.path_of(f)), m["qname"], "bound@%d" % f["l"][1], f["l"][1],
+                                  "the loop `for(...; %s; ...)` is bounded by %s, a quantity of this call's data: the number of terms of the expansion that are computed / applied then depends on the input (terms cut by an absolute threshold are the ones that matter for small cells), so the error no longer shrinks with the order"
+                                  % (facts.ntext(f["c"][1])[:50], why))
     return n
